@@ -10,12 +10,14 @@ import (
 )
 
 // expectedAssumed: comparator stages that are outside the evaluator's fragment on the pinned
-// tree (character scanners and position-dependent loops). The order laws are decided
-// conditionally on these being total preorders; they are listed in the evidence and in
-// DESIGN.md as "not decided". A stage that newly falls out of fragment is reported.
+// tree (two-cursor character scanners and one position-dependent loop). R-PREORDER uses them as
+// relation atoms. For debian and rpm the assumption is discharged structurally (ruleScannerOrder:
+// the scanner is a lexicographic comparison of canonical run sequences by total preorders of
+// runs); alpine's numeric list remains an assumption, listed in the evidence and in DESIGN.md as
+// "not decided". A stage that newly falls out of fragment is reported. alpm's scanner was on this
+// list until its prefix heuristic was repaired (af15ab6); it is evaluated like any comparator now.
 var expectedAssumed = map[string][]string{
 	"alpine": {"assumed:compareNumericArraysNumeric(.numeric)"},
-	"alpm":   {"rank:compareALMPVersionString(.pkgver)"},
 	"debian": {"rank:compareDebianVersionString(.revision)", "rank:compareDebianVersionString(.upstream)"},
 	"rpm":    {"rank:compareRPMVersionString(.release)", "rank:compareRPMVersionString(.version)"},
 }
@@ -87,8 +89,8 @@ func runAEOne(p *Prog, e *Eco) *aeEcoResult {
 		out[e.Name] = er
 		if os.Getenv("GVDEBUG") != "" {
 			var as []string
-			for k := range res.assumed {
-				as = append(as, k)
+			for k, why := range res.assumed {
+				as = append(as, k+" <"+why+">")
 			}
 			sort.Strings(as)
 			fmt.Fprintf(os.Stderr, "AE %s (%.1fs): oof=%q worlds=%v steps=%d\n   assumed=%v\n   stages=%v\n   loopsOK=%v\n", e.Name, er.secs, res.oof, res.worlds, c.steps, as, er.stages, res.loopsOK)
@@ -181,7 +183,7 @@ func rulePreorder(p *Prog, r *Report) {
 		}
 		cond := ""
 		if len(as) > 0 {
-			cond = " (conditional on the undecided scanner stages " + strings.Join(as, ", ") + ")"
+			cond = " (with the scanner stages " + strings.Join(as, ", ") + " as relation atoms: debian's and rpm's are discharged by R-*-SCAN/NONDIGIT/DIGITS, alpine's position-dependent numeric list stays an assumption)"
 		}
 		for _, law := range []string{"reflexive", "antisymmetric", "range", "transitive"} {
 			if res.nfail[law] > 0 {
